@@ -13,9 +13,14 @@ import fcntl, hashlib, json, os, re, subprocess, sys, time
 from concurrent.futures import ThreadPoolExecutor
 
 ROOT = os.path.dirname(os.path.dirname(os.path.abspath(__file__)))
-COQ = os.path.join(ROOT, "coq")
-TH = os.path.join(COQ, "theories")
 BUILD = os.path.join(ROOT, ".build")
+# Self-tests against a mutated scratch tree (VERIF_REPO=<worktree>, bin/seedcheck) work on a private
+# copy of the Coq tree and write their evidence/replays under .build/alt, so that they never disturb
+# the registered checks, which always run against /repo in /verif/coq.
+ALT = bool(os.environ.get("VERIF_REPO"))
+OUT = os.path.join(BUILD, "alt") if ALT else ROOT
+COQ = os.path.join(BUILD, "alt", "coq") if ALT else os.path.join(ROOT, "coq")
+TH = os.path.join(COQ, "theories")
 REPO = "/repo"
 GO = "go1.26"
 GOENV = dict(os.environ, GOFLAGS="-mod=mod", GOPROXY="off", GOSUMDB="off", GOTOOLCHAIN="local",
@@ -317,7 +322,7 @@ def load_findings(prop):
 
 
 def write_replay(prop, obj):
-    d = os.path.join(ROOT, "replay")
+    d = os.path.join(OUT, "replay")
     os.makedirs(d, exist_ok=True)
     h = hashlib.sha1(json.dumps(obj, sort_keys=True).encode()).hexdigest()[:10]
     path = os.path.join(d, "%s-%s.json" % (prop, h))
@@ -327,7 +332,7 @@ def write_replay(prop, obj):
 
 
 def write_evidence(prop, ev):
-    d = os.path.join(ROOT, "evidence")
+    d = os.path.join(OUT, "evidence")
     os.makedirs(d, exist_ok=True)
     tmp = os.path.join(d, prop + ".json.tmp")
     with open(tmp, "w") as f:
@@ -376,7 +381,10 @@ def decide(chk, tier, seed):
     broken = []        # broken obligations: list of (name, detail)
     obligations = []   # list of dict(name, kind, ok)
 
-    with Lock():
+    with Lock("alt" if ALT else "build"):
+        if ALT:
+            os.makedirs(COQ, exist_ok=True)
+            sh(["rsync", "-a", "--delete", "--exclude", "Cases/", os.path.join(ROOT, "coq") + "/", COQ + "/"], check=True)
         tr_ok, markers = run_translator()
         if chk.gen_rels:            # only properties built on the regenerated tables depend on the translator
             for m in markers:
